@@ -1344,6 +1344,21 @@ PROPS["C12"]["trusted_base"] = PROPS["C12"]["trusted_base"] + [
     "(Leaf.URLPath stands for the model's urlPath on the leaf's route — the substitution itself is the model's, tied by the "
     "correspondence); an index out of range is not represented (the loop's indices are in range by its bound)"]
 
+for _pid in ("C01", "C02", "C08"):
+    PROPS[_pid]["code_modules"] = PROPS[_pid].get("code_modules", []) + ["Flamego.Props.C01Code"]
+    PROPS[_pid]["technique"] = PROPS[_pid]["technique"] + "; code-level tie for the match-style decision: isMatchStyleStatic / checkMatchStylePlaceholder / checkMatchStyleAll of leaf.go are translated to Lean on every run and proved equal to the model's classification for every segment"
+    PROPS[_pid]["level_text"] = PROPS[_pid]["level_text"] + (
+        " CODE-LEVEL TIE (match style): /verif/translator regenerates Gen/ClassifyCode.lean from internal/route on every run (the AST "
+        "structs of definition.go, a pointer field being an Option, and the three predicates newLeaf / newTree ask) and Props/C01Code "
+        "proves static_refines, placeholder_refines, all_refines (for every segment of the parser's AST the generated predicate answers "
+        "what Model/Classify's staticLit / holeBind / allBind answer — bind name and capture limit included) and styles_exclusive. "
+        "When the source leaves the translated subset or a proof no longer checks, the evidence says so and the correspondence, run "
+        "over four seeds instead of one, decides.")
+    PROPS[_pid]["trusted_base"] = PROPS[_pid]["trusted_base"] + [
+        "code-level tie: the Go→Lean translator (translator/gocode.go, classifycode.go); the embedding goSeg of the model's AST into "
+        "the Go structs (every AST the real parser returns has exactly one of Ident / BindIdent / BindParameters set per element — "
+        "C06's tie); a nil dereference is not represented (each is guarded by a nil test in the source, which the proofs use); "
+        "strconv.Atoi as Model/Classify reads it (atoiGo)"]
 _ALL = ['C01', 'C02', 'C03', 'C04', 'C05', 'C06', 'C07', 'C08', 'C09', 'C10', 'C11', 'C12', 'C13', 'C14', 'C15', 'C16', 'C17', 'C18']
 NOT_APPLICABLE = [
     {"property_id": p, "reason": "check not built yet in this revision (work in progress; see DESIGN.md §11 for the plan)"}
